@@ -14,6 +14,7 @@
 //! Mutants caught (tools/mutant_run.sh E <patch> C36 quick):
 //!   mutants/C36-skip-imprint.diff     (message-imprint comparison skipped)
 //!   mutants/C36-skip-cms-sig.diff     (CMS signature failure ignored)
+//!   /tmp/seed-C36/OUT/patch.diff      (independently seeded: imprint not compared for unknown hash algorithms; caught by imprint-alg cases)
 
 use std::sync::{Arc, Mutex};
 
@@ -225,6 +226,68 @@ fn menu_case(run: &Run, env: &Env, w: &str, v2: bool, tok: Tok) {
     }
 }
 
+// ---- message-imprint hash algorithm x {right message, other message} -------------------------------------
+fn alg_case(run: &Run, env: &Env, w: &str, v2: bool, alg: (&str, &str), right: bool) {
+    let (name, oid) = alg;
+    if pki::hash_by_name(name, b"probe").is_none() {
+        run.outcome(format!("imprint-alg {name}: not offered by this OpenSSL"));
+        return;
+    }
+    let Some(gt) = gen_time(Tok::Right, w, env.now) else { return };
+    let h = hierarchy(w, env.now);
+    let minted: Minted = Arc::new(Mutex::new(vec![]));
+    let (tsa, m2, name2, oid2) = (env.tsa.clone(), minted.clone(), name.to_string(), oid.to_string());
+    let mut s = KitSigner::for_hierarchy(&h).direct();
+    s.v2 = v2;
+    s = s.with_tsa(Arc::new(move |msg: &[u8]| {
+        let right_imprint = pki::hash_by_name(&name2, msg).unwrap_or_default();
+        let used = if right { right_imprint.clone() } else { pki::hash_by_name(&name2, b"some other message").unwrap_or_default() };
+        let reply = tsa.build_reply_alg(&oid2, &used, &TokenOpts { gen_time: gt, signing_time_attr: None, serial: pki::next_serial(), include_certs: true });
+        m2.lock().unwrap().push((reply.clone(), right_imprint));
+        Some(Ok(reply))
+    }));
+    let kind = if right { "right" } else { "other" };
+    let asset = match pki::sign_asset(&s, "image/png", &kit::assets::png(), if v2 { pki::DEF_V2 } else { pki::DEF_V1 }) {
+        Ok(a) => a,
+        Err(e) => {
+            // a signer-side refusal of an exotic algorithm is not a reader verdict
+            run.eval();
+            run.outcome(format!("imprint-alg {name} {kind}: sign-refused {}", e.split('(').next().unwrap_or("")));
+            return;
+        }
+    };
+    // by-construction preconditions, checked with OpenSSL: the CMS signature verifies, the imprint is (not) the right one
+    let Some((reply, right_imprint)) = minted.lock().unwrap().last().cloned() else { kit::ev::machinery("C36: no time-stamp requested") };
+    let token = pki::token_of_reply(&reply).unwrap_or_else(|| kit::ev::machinery("C36: reply without token"));
+    let econtent = pki::cms_verify_inproc(&token).unwrap_or_else(|| kit::ev::machinery(format!("C36: CMS_verify rejects the kit token with imprint algorithm {name}")));
+    if (pki::tst_imprint(&econtent).as_deref() == Some(&right_imprint[..])) != right {
+        kit::ev::machinery(format!("C36: kit token imprint ({name}, {kind}) is not as constructed"));
+    }
+    let o = pki::observe(read_ctx(env, &h), "image/png", &asset);
+    run.eval();
+    let id = format!("imprint-alg/{name}/{kind}/{w}/v{}", if v2 { 2 } else { 1 });
+    run.nontrivial(id.clone());
+    let case = json!({"kind":"imprint-alg","alg":name,"right":right,"window":w,"v2":v2});
+    let o = match o {
+        Err(p) => {
+            run.violation(format!("panic imprint-alg alg={name} {kind}"), p, case);
+            return;
+        }
+        Ok(o) => o,
+    };
+    run.outcome(format!("imprint-alg {name} {kind} window={w}: {}", o.class()));
+    let what = format!("{id}: state {} time {:?} codes {:?}", o.state, o.time, o.pick(&["signingCredential", "timeStamp"]));
+    if !right {
+        if o.time.is_some() || o.has("success", "timeStamp.validated") {
+            run.violation(format!("time-taken-from-mismatching-token imprint-alg={name} window={w} claim=v{}", if v2 { 2 } else { 1 }), what.clone(), case.clone());
+        }
+        if w == "expired" && o.ok_state() {
+            run.violation(format!("expired-certificate-accepted tok=other-message imprint-alg={name} claim=v{} state={}", if v2 { 2 } else { 1 }, o.state), what, case);
+        }
+    }
+    // right message with an algorithm the SDK may not support: refusing it is allowed, nothing is demanded
+}
+
 // ---- every byte of the right token --------------------------------------------------------------------
 struct SweepSeed {
     w: &'static str,
@@ -368,6 +431,10 @@ pub fn run(run: &Run, replay: Option<&Value>) {
         let v2 = c["v2"].as_bool().unwrap_or(true);
         if c["kind"] == "menu" {
             menu_case(run, &env, w, v2, Tok::from(c["tok"].as_str().unwrap_or("none")));
+        } else if c["kind"] == "imprint-alg" {
+            let name = c["alg"].as_str().unwrap_or("sha256");
+            let alg = pki::IMPRINT_ALGS.iter().find(|a| a.0 == name).copied().unwrap_or(pki::IMPRINT_ALGS[2]);
+            alg_case(run, &env, w, v2, alg, c["right"].as_bool().unwrap_or(false));
         } else {
             let kind = KeyKind::from_name(c["tsa"].as_str().unwrap_or("p256"));
             let env = mk_env(kind);
@@ -400,6 +467,20 @@ pub fn run(run: &Run, replay: Option<&Value>) {
     run.space("menu: (certificate window, claim version, token kind)", menu.len() as u64, true);
     par::for_each(&menu, |(w, v2, t)| menu_case(run, &env, w, *v2, *t));
     run.sample(json!({"menu_case": {"window":"expired","v2":true,"tok":"other-message"}}));
+
+    // ---- imprint algorithm x right / other message
+    let mut algs: Vec<(&str, bool, (&str, &str), bool)> = vec![];
+    for w in ["valid", "expired"] {
+        for v2 in [true, false] {
+            for a in pki::IMPRINT_ALGS {
+                for right in [true, false] {
+                    algs.push((w, v2, *a, right));
+                }
+            }
+        }
+    }
+    run.space("imprint algorithm {sha1, sha224, sha256, sha384, sha512, sha512-256, sha3-256} x {right, other message} x {valid, expired} x claim {v2, v1}", algs.len() as u64, true);
+    par::for_each(&algs, |(w, v2, a, right)| alg_case(run, &env, w, *v2, *a, *right));
 
     // ---- sweeps
     let masks: &[u8] = run.tier.pick(&[0x01u8][..], &[0x01u8, 0x80, 0xFF][..]);
